@@ -93,7 +93,7 @@ func prots(thorough bool) []*prot {
 }
 
 // features: path-rewriting and content-producing directives.
-var featureNames = []string{"rw-simple", "rw-regexp", "rw-to", "tryfiles", "ext", "index", "gzip", "browse", "browse-archive", "templates", "markdown", "proxy", "fastcgi"}
+var featureNames = []string{"rw-simple", "rw-regexp", "rw-to", "tryfiles", "tryfiles-without", "ext", "index", "gzip", "browse", "browse-archive", "templates", "markdown", "proxy", "fastcgi"}
 
 func featureConf(f string, p *prot, httpBackend, fcgiBackend string) string {
 	switch f {
@@ -105,6 +105,9 @@ func featureConf(f string, p *prot, httpBackend, fcgiBackend string) string {
 		return "rewrite /try {\n\t\tto /nonexistent-file " + p.Target + "\n\t}"
 	case "tryfiles":
 		return "tryfiles {path} {path}/ " + p.Target
+	case "tryfiles-without":
+		// the prefix is cut off the request path before the files are tried
+		return "tryfiles {path} {path}/ " + p.Target + " {\n\t\twithout /pre\n\t}"
 	case "ext":
 		return "ext .txt .html .md"
 	case "index":
@@ -133,6 +136,9 @@ func compatible(fs []string) bool {
 		has[f] = true
 	}
 	if has["browse"] && has["browse-archive"] {
+		return false
+	}
+	if has["tryfiles"] && has["tryfiles-without"] {
 		return false
 	}
 	return true
@@ -273,6 +279,9 @@ func spellings(p string) []string {
 		"/%2e%2e" + p, "/." + p, "/%2f" + strings.TrimPrefix(p, "/"),
 		p + ".", p + "%20", p + ";x=1", p + "%00",
 		"/" + first + "%2f.." + p,
+		// the protected path glued to / behind a prefix that a rewriting directive
+		// strips (tryfiles `without /pre`)
+		"/pre" + strings.TrimPrefix(p, "/"), "/pre" + p, "/pre/" + p,
 	}
 	if rest != "" {
 		out = append(out, "/"+first+"%2f"+rest[1:], "/"+first+"\\"+rest[1:], "/"+first+"//"+rest[1:], "/"+first+"/%2e"+rest, "/"+first+"%5c"+rest[1:])
@@ -372,6 +381,7 @@ func sanityCases(fx *c02.Fixture, s *site) []rcase {
 		add("rw-regexp", "/re"+s.P.Target, "", "")
 		add("rw-to", "/try", "", "")
 		add("tryfiles", "/nonexistent", "", "")
+		add("tryfiles-without", "/pre"+s.P.Target, "", "")
 		add("ext", strings.TrimSuffix(s.P.Target, path.Ext(s.P.Target)), "", "")
 		add("index", s.P.Dir+"/", "", "")
 		add("gzip", s.P.Target, "", "gzip")
